@@ -510,8 +510,8 @@ def generate(rng, tier, outdir):
     w = CaseWriter(outdir, IMPORTS, CASE_TYPES)
     w.SHARD = 16  # the structural check enumerates the whole product space: keep shards small, they run in parallel
     # deterministic budget: a number of requests and a cap on the total number of subexperiments simulated
-    max_cases = 200 if tier == "quick" else 1500
-    max_circuits = 18000 if tier == "quick" else 600000
+    max_cases = 200 if tier == "quick" else 1200
+    max_circuits = 10000 if tier == "quick" else 150000
     t0 = time.time()
     ncirc = 0
     for spec in fixed_specs():
@@ -546,3 +546,13 @@ def rerun(case):
     impl = run_pipeline(case)
     case["impl"] = dict(outcome=impl["outcome"], detail=impl["detail"], values=impl["values"], st=impl["st"])
     return case
+
+
+def witness(name):
+    """Known-finding witnesses (F4: idle qubit under automatic labels, observable IZZ must be answered with 1.0)."""
+    if name != "F4":
+        return dict(fails=None, detail=f"no witness named {name}")
+    spec = fixed_specs()[0]
+    impl = run_pipeline(spec)
+    v = verdict(spec, impl)
+    return dict(fails=bool(v["violates"]), detail=v["detail"])
